@@ -40,6 +40,7 @@ func init() {
 			{ID: "C08.R10", Text: "adopting the new branch id does not stall the stream: the persistence threshold is written only by SetPersistSeqNo and never lowered (same rule as C07.R3)", Run: c07r3},
 			{ID: "C08.R11", Text: "the checkpoint written after a rollback carries the new branch: every persisted document is built field by field from the tracked offset at save time, never kept from an earlier save (same rule as C02.R2)", Run: c02r2},
 			{ID: "C08.R12", Text: "every document event above F is shown or the client stops: a replayed snapshot announcement is installed whenever the gate passes, under no other condition (same rule as C06.R7), and an event outside the announced snapshot is fatal, never skipped (same rule as C06.R2)", Run: func(c *Ctx, id string) { markerInstall(c, id); c06r2(c, id) }},
+			{ID: "C08.R13", Text: "a re-open that is answered with a rollback starts from the position settled by then: openStream reads offsets[vbID] when it is called, every attempt anew (same rule as C12.R3)", Run: c12r3},
 			{ID: "C08.R5", Text: "catch-up filter: skip ⇔ need ∧ seq ≤ F; need' = need ∧ seq < F; SetCatchup stores F and arms the filter", Run: c08r5},
 		},
 	})
